@@ -954,6 +954,9 @@ class Splicer:
                 n += 1
         # ghost statements
         for gh in fs.ghosts:
+            if gh.name in getattr(self, "skip_ghosts", ()):
+                g.meta["skipped_anchors"].append({"fn": key, "kind": "ghost", "name": gh.name, "expected": gh.anchor, "found": None, "forced": True})
+                continue
             tag_ = " //@ %s %s" % (gh.name, ",".join(gh.props))
             text_ = "".join("%s%s\n" % (l, tag_) for l in gh.text.rstrip("\n").split("\n"))
             if gh.where == "at-start":
@@ -1129,6 +1132,12 @@ def process_file(sp, fspec, g):
         g.meta["dropped_items"].append({"file": fspec.path, "line": line_of(toks[it.head_lo].start),
                                         "item": rs.norm(toks, it.head_lo, min(it.hi, it.head_lo + 12)), "why": why})
 
+    def unextracted(it, key):
+        # a function of this file that is neither verified nor assumed: recorded with its token hash so that a change to it
+        # can be noticed (contracts/unverified_pins.json) although no obligation covers it
+        g.meta.setdefault("unextracted", []).append({"file": fspec.path, "key": key, "tokhash": token_hash(toks, it.head_lo, it.hi),
+                                                       "line": line_of(toks[it.head_lo].start)})
+
     def emit_fn(it, key, fs, in_trait=False):
         if fs is not None:
             fs.used = True
@@ -1196,6 +1205,8 @@ def process_file(sp, fspec, g):
             fs = fspec.fns.get(key)
             if whole or fs is not None:
                 emit_fn(it, key, fs)
+            else:
+                unextracted(it, key)
             continue
         if it.kind == "impl":
             selfname, trait = impl_names(toks, it)
@@ -1210,6 +1221,8 @@ def process_file(sp, fspec, g):
                         continue
                     if whole or fs is not None:
                         chosen.append((sub, key, fs))
+                    else:
+                        unextracted(sub, key)
                 else:
                     sp.attrs(sub.lo, sub.head_lo)
                     chosen.append((sub, None, None))
@@ -1347,6 +1360,7 @@ def main():
     ap.add_argument("--specs", nargs="*", default=None)
     ap.add_argument("--demote", action="append", default=[])
     ap.add_argument("--record-params", action="store_true", help="write contracts/params.json from the current tree (done once on the pinned tree)")
+    ap.add_argument("--skip-ghost", action="append", default=[], help="leave this proof hint out (tools/hintmap.py: which clauses does a hint serve?)")
     ap.add_argument("--probes", action="store_true", help="vacuity run: assert(false) at the start of every contracted fn and loop body")
     a = ap.parse_args()
     out = a.out or os.path.join(a.verif, "gen")
@@ -1356,6 +1370,7 @@ def main():
     if os.path.exists(pp) and not a.record_params:
         PINNED_PARAMS.update(json.load(open(pp)))
     sp = Splicer(a.repo, g, probes=a.probes, demote=a.demote)
+    sp.skip_ghosts = set(a.skip_ghost)
     g.raw("// GENERATED by tools/splice.py from %s -- do not edit\n" % a.repo)
     g.raw("#![allow(unused_imports, dead_code, unused_variables, unused_mut, unused_unsafe, unreachable_code, non_snake_case)]\n")
     g.raw("use vstd::prelude::*;\nuse vstd::multiset::Multiset;\nuse core::mem;\nuse core::iter::FusedIterator;\n"
